@@ -4,13 +4,30 @@
 
 #include "sched_dml.h"
 #include "sched_misc.h"
+#ifdef VF_ALLOC_TRACK
+#define VF_ALLOC_TRACK_IMPL
+#include "sched_epoch.h"
+#endif
 
 int main(int argc, char** argv) {
     FLAGS_logtostderr = true;
     FLAGS_minloglevel = 3;
     google::InitGoogleLogging(argv[0]);
     vf::RunnerArgs args = vf::parse_args(argc, argv);
+#ifdef VF_ALLOC_TRACK
+    track::enable(true);
+    if (args.prop == "C16" || args.prop == "C07") {
+        // every case must be a pure function of its bytes: the first init()/fin() cycle of a process can only happen once, so
+        // it is spent here and every generated cycle is "a later cycle" (which is what C16 is about)
+        yakushima::init();
+        yakushima::fin();
+    }
+#endif
     return vf::runner_main(args, [](const vf::RunnerArgs& a, const std::vector<std::uint8_t>& b, bool record, vf::Stats& st) {
+#ifdef VF_ALLOC_TRACK
+        if (a.prop == "C16") { return epo::run_c16(a, b, record, st); }
+        if (a.prop == "C07") { return epo::run_c07(a, b, record, st); }
+#endif
         if (a.prop == "C14") { return misc::run_sessions(a, b, record, st); }
         if (a.prop == "C17") { return misc::run_version(a, b, record, st); }
         if (a.prop == "C13") { return misc::run_ddl(a, b, record, st); }
